@@ -1020,7 +1020,8 @@ class ExtensionNodeProperty(_ElementBase):
             extension_nodes = self._get_element_by_child_name(node, self._sub_element_name, create_missing_nodes=False)
         except ElementNotFoundError:
             return ExtensionLocalValue()
-        return ExtensionLocalValue(extension_nodes[:])
+        # copies: the instance must not share elements with the parsed document (or with another instance parsed from it)
+        return ExtensionLocalValue([xml_utils.copy_node_wo_parent(x) for x in extension_nodes])
 
     def update_xml_value(self, instance: Any, node: xml_utils.LxmlElement):
         """Write value to node.
@@ -1049,7 +1050,8 @@ class AnyEtreeNodeProperty(_ElementBase):
             sub_node = self._get_element_by_child_name(node, self._sub_element_name, create_missing_nodes=False)
         except ElementNotFoundError:
             return None
-        return sub_node[:]  # all children
+        # copies: the instance must not share elements with the parsed document (or with another instance parsed from it)
+        return [xml_utils.copy_node_wo_parent(x) for x in sub_node]  # all children
 
     def update_xml_value(self, instance: Any, node: xml_utils.LxmlElement):
         """Write value to node."""
@@ -1067,10 +1069,11 @@ class AnyEtreeNodeProperty(_ElementBase):
                 raise ValueError(f'mandatory value {self._sub_element_name} missing')  # noqa: EM102
         else:
             sub_node = self._get_element_by_child_name(node, self._sub_element_name, create_missing_nodes=True)
+            # append copies: appending an element moves it out of the tree (and the instance) it came from
             if isinstance(py_value, etree._Element):  # noqa: SLF001
-                sub_node.append(py_value)
+                sub_node.append(xml_utils.copy_node_wo_parent(py_value))
             else:
-                sub_node.extend(py_value)
+                sub_node.extend(xml_utils.copy_node_wo_parent(x) for x in py_value)
 
 
 class SubElementProperty(_ElementBase):
@@ -1446,7 +1449,8 @@ class AnyEtreeNodeListProperty(_ElementListProperty):
             sub_node = self._get_element_by_child_name(node, self._sub_element_name, create_missing_nodes=False)
             if sub_node is None:
                 return []
-            return sub_node[:]
+            # copies: the instance must not share elements with the parsed document
+            return [xml_utils.copy_node_wo_parent(x) for x in sub_node]
         except ElementNotFoundError:
             return objects
 
@@ -1463,7 +1467,8 @@ class AnyEtreeNodeListProperty(_ElementListProperty):
             return
 
         sub_node = self._get_element_by_child_name(node, self._sub_element_name, create_missing_nodes=True)
-        sub_node.extend(py_value)
+        # append copies: extending with the elements themselves moves them out of the tree they came from
+        sub_node.extend(xml_utils.copy_node_wo_parent(x) for x in py_value)
 
     def __str__(self) -> str:
         return f'{self.__class__.__name__} in sub-element {self._sub_element_name}'
